@@ -1031,4 +1031,78 @@ example : (Src.ts [(5, 1), (5, 2)]).getitemFull (.mask [false, true]) = .ok (.ts
 example : (Src.cont ⟨7, 3, [0, 1, 2]⟩).len ≠ 0 ∧ ((Src.cont ⟨7, 3, [0, 1, 2]⟩).getitem (.ts 8) .none).len ≠ 0 := by decide
 
 
+/-! ## Deepening round D: 64-bit integers suffice -/
+
+/-- Every integer `Continuous.slice` (and the constructor of its result) computes, in evaluation order:
+    `start - self.start`, `… % dt`, `start + dt`, `… - fraction`, the aligned start, the three steps and the quotient of
+    `to_index` for both bounds, the clamped stop index, `len(data) * dt` and the new `stop`.
+    (A transcription of the code's expressions; the real code does not expose its intermediates.) -/
+def Cont.sliceTrace (c : Cont) (a b : Int) : List Int :=
+  let d := a - c.start
+  let fraction := d % c.dt
+  let a' := alignedStart c a
+  let n' : Int := ((c.slice a b).data.length : Nat)
+  [d, fraction, a + c.dt, a + c.dt - fraction, a',
+   a' - c.start, a' - c.start + c.dt, a' - c.start + c.dt - 1, toIndex c.start c.dt a',
+   b - c.start, b - c.start + c.dt, b - c.start + c.dt - 1, toIndex c.start c.dt b, max (toIndex c.start c.dt b) 0,
+   n' * c.dt, a' + n' * c.dt]
+
+/-- fits a signed 64-bit integer -/
+def isInt64 (x : Int) : Prop := -(2 ^ 63) ≤ x ∧ x < 2 ^ 63
+
+/-- **No 64-bit overflow below 2^62.**  For a channel and a window whose timestamps lie in `[0, 2^62]` and a period of
+    at most `2^60` ns, every integer the index arithmetic computes fits a signed 64-bit integer — so NumPy's `int64`
+    arithmetic (start times read from HDF5 attributes are `np.int64`) agrees with the unbounded integers of the model. -/
+theorem cont_slice_no_overflow (c : Cont) (a b : Int) (hdt : 0 < c.dt) (hdt' : c.dt ≤ 2 ^ 60)
+    (hs : 0 ≤ c.start) (hstop : c.stop ≤ 2 ^ 62) (ha : 0 ≤ a ∧ a ≤ 2 ^ 62) (hb : 0 ≤ b ∧ b ≤ 2 ^ 62) :
+    ∀ x ∈ c.sliceTrace a b, isInt64 x := by
+  have hlen : 0 ≤ (c.data.length : Int) * c.dt := Int.mul_nonneg (by omega) (by omega)
+  have hstart : c.start ≤ 2 ^ 62 := by unfold Cont.stop at hstop; omega
+  -- the fraction
+  have hf0 := Int.emod_nonneg (a - c.start) (by omega : c.dt ≠ 0)
+  have hf1 := Int.emod_lt_of_pos (a - c.start) hdt
+  -- the aligned start
+  have ha' : max a c.start ≤ alignedStart c a ∧ alignedStart c a ≤ 2 ^ 62 + 2 ^ 60 := by
+    unfold alignedStart
+    simp only
+    split <;> omega
+  -- the two quotients
+  have hi := ediv_bounds (alignedStart c a - c.start + c.dt - 1) c.dt hdt
+  have hj := ediv_bounds (b - c.start + c.dt - 1) c.dt hdt
+  -- the length of the result and its stop
+  have hn' : ((c.slice a b).data.length : Int) ≤ c.data.length := by
+    have := pySlice_length_le c.data (toIndex c.start c.dt (alignedStart c a)) (max (toIndex c.start c.dt b) 0)
+    simp only [Cont.slice]; omega
+  have hprod0 : 0 ≤ ((c.slice a b).data.length : Int) * c.dt := Int.mul_nonneg (by omega) (by omega)
+  have hprod : ((c.slice a b).data.length : Int) * c.dt ≤ (c.data.length : Int) * c.dt :=
+    Int.mul_le_mul_of_nonneg_right hn' (by omega)
+  have hstop' : alignedStart c a + ((c.slice a b).data.length : Int) * c.dt ≤ 2 ^ 62 + 2 ^ 60 := by
+    by_cases hne : (c.slice a b).data = []
+    · rw [hne]; simp only [List.length_nil]; omega
+    · have ht := (cont_bounds_tight (c.slice a b) hne).2
+      cases hl : (c.slice a b).samples.getLast? with
+      | none => rw [hl] at ht; simp at ht
+      | some y =>
+        rw [hl] at ht
+        simp only [Option.map_some, Option.some.injEq] at ht
+        have hy : y ∈ (Src.slice (.cont c) a b).samples := List.mem_of_getLast? hl
+        have hy' : y ∈ c.samples :=
+          (slice_sublist (.cont c) (by intro c' h; cases h; exact hdt) a b).subset hy
+        have := (mem_samplesFrom c.dt hdt c.data c.start y hy').2
+        have e : (c.slice a b).stop = alignedStart c a + ((c.slice a b).data.length : Int) * c.dt := rfl
+        have e2 : (c.slice a b).dt = c.dt := rfl
+        unfold Cont.stop at hstop
+        omega
+  intro x hx
+  simp only [Cont.sliceTrace, toIndex, List.mem_cons, List.not_mem_nil, or_false] at hx
+  unfold Cont.stop at hstop
+  unfold isInt64
+  have hi1 := hi.1; have hi2 := hi.2; have hj1 := hj.1; have hj2 := hj.2
+  rcases hx with h | h | h | h | h | h | h | h | h | h | h | h | h | h | h | h <;> subst h <;> omega
+
+/-- non-vacuity: a channel recorded in 2024 at 78.125 kHz -/
+example : (0 : Int) < (⟨1700000000000000000, 12800, [0, 1, 2]⟩ : Cont).dt ∧
+    (⟨1700000000000000000, 12800, [0, 1, 2]⟩ : Cont).stop ≤ 2 ^ 62 := by decide
+
+
 end Verif.C01
